@@ -468,7 +468,7 @@ def process(run, cases, mode):
             cls = "None" if a is None else ("none-spelling" if isinstance(a, str) and a.lower() == "none" else
                                             (a if a in ("monthly", "bimonthly") else ("other string" if isinstance(a, str) else "non-string")))
             run.dist("argument -> outcome", "%s -> %s" % (cls, outcome))
-            if r["kind"] == "err" and a in known_raises:
+            if r["kind"] == "err" and isinstance(a, str) and a in known_raises:
                 run.dist("known finding, not compared with the model", "%s -> %s" % (a, r["err"]))
                 continue
             if r["kind"] == "agg" and has_inf(r["frame"]):
@@ -582,7 +582,7 @@ def main():
         if os.path.exists(corpus):
             cases += json.load(open(corpus))
         cases.append(pcase)
-        for k in range(run.n(260, 20000)):
+        for k in range(run.n(220, 4000)):
             cases.append(gen_case(run.rng, k))
     step = 1500
     for s0 in range(0, len(cases), step):
